@@ -431,7 +431,7 @@ def _combine_coverage(prog, jp, init):
     """Every prior class that defines combine() is merged by JointPrior.__init__ (else it is dropped)."""
     listed = set()
     for st in ast.walk(init):
-        if isinstance(st, ast.For) and isinstance(st.iter, ast.List):
+        if isinstance(st, ast.For) and isinstance(st.iter, (ast.List, ast.Tuple)):
             names = [U(e) for e in st.iter.elts]
             if any(n in prog.classes for n in names):
                 listed |= set(names)
